@@ -327,5 +327,26 @@ def cases(seed, count, typed, maxpicks=40, start=0):
     return out
 
 
+# hand-written deep chains (method form, supplied as source strings so that no renaming happens before the backend passes):
+# a fusion nested in an outer lambda, an intermediate lambda level, and an innermost binder that may re-use the outer name
+DEEP_LAMBDAS = [
+    "lambda {A}: {A}.so_jets.Select(lambda {B}: ({B}, {A}.i_pt)).Select(lambda {C}: {C}[0].so_trk.Select(lambda {P}: {P}.so_jets.Where(lambda {Q}: {Q}.i_pt > {C}[1]).Count()))",
+    "lambda {A}: {A}.so_jets.Select(lambda {B}: ({B}, {A}.i_pt)).Select(lambda {C}: {C}[0].so_trk.Select(lambda {P}: {P}.si_hits.Select(lambda {Q}: {Q} + {C}[1])))",
+    "lambda {A}: {A}.so_jets.Select(lambda {B}: ({B}.so_trk, {A}.o_p)).Where(lambda {C}: {C}[0].Where(lambda {P}: {P}.so_jets.Where(lambda {Q}: {Q}.i_pt > {C}[1].i_pt).Count() > 0).Count() > 0).Count()",
+    "lambda {A}: [[{Q}.i_pt + {C}[1] for {Q} in {C}[0].so_trk] for {C} in {A}.so_jets.Select(lambda {B}: ({B}, {A}.i_pt))]",
+]
+
+
+def deep_cases(start, pool=("e", "j")):
+    from vlib.skel import gen as _gen
+    out = []
+    for t in DEEP_LAMBDAS:
+        ph = [p for p in ("A", "B", "C", "P", "Q") if "{%s}" % p in t]
+        for src, _ in _gen.family_instances(t, ph, pool):
+            idx = start + len(out)
+            out.append(dict(build="def build_%d(ds):\n    return [ds.Select(\n        %r\n    )]\n" % (idx, src), truths=["Select(ds, %s)" % src], typed=False))
+    return out
+
+
 def module_text(cases_, typed):
     return MODEL_SRC % {"PT": "mi_pt()" if typed else "i_pt"} + "\n\n".join(c["build"] for c in cases_) + "\n"
